@@ -807,8 +807,11 @@ def r4(db, rep):
                 if st["k"] == "DeclStmt":
                     for v in st.get("c", []):
                         fx.decl(ctx, v, env)
-            off = fx.fexpr(ctx, env, strip(inner[0]["c"][1])["c"][1]) if strip(inner[0]["c"][1])["k"] == "BinaryOperator" else None
-            rest = fx.fexpr(ctx, env, inner[0]["c"][2])
+            # named locals for the two arguments are the same call (single-assignment locals are read through)
+            pa = strip(facts.inline_locals(f, inner[0]["c"][1]))
+            off = fx.fexpr(ctx, env, pa["c"][1]) if pa["k"] == "BinaryOperator" and pa.get("op") == "+" and \
+                facts.strip_all(pa["c"][0]).get("var") == f["params"][0]["var"] else None
+            rest = fx.fexpr(ctx, env, facts.inline_locals(f, inner[0]["c"][2]))
         except (sx.Opaque, KeyError, IndexError):
             off = rest = None
         want_off = sx.atom("header_size()")
